@@ -361,8 +361,10 @@ impl<'a> TermGen<'a> {
             4 => {
                 let (x, inner) = self.enter_binder(scope);
                 let body = self.term(depth - 1, &inner);
-                // the bound value must not mention x free at this node
-                let outer: Vec<S> = scope.iter().copied().filter(|s| *s != x).collect();
+                // usually the bound value does not mention a slot named like the binder; sometimes
+                // it does (the same name bound in one child and free in a sibling child)
+                let keep_x = self.rng.chance(1, 4);
+                let outer: Vec<S> = scope.iter().copied().filter(|s| keep_x || *s != x).collect();
                 let e = self.term(depth - 1, &outer);
                 Tm::node("let", vec![], vec![(vec![x], body), (vec![], e)])
             }
